@@ -566,6 +566,12 @@ func (s *scheduler) pick() string {
 			add(st, 14)
 		}
 	}
+	// the network delivers a copy of an earlier Truncate request again
+	for _, n := range c.nodes {
+		if c.redeliverable(n.id) != nil {
+			add(fmt.Sprintf("retr:%d", n.id), 2)
+		}
+	}
 	// a client gives up on a write that is in flight
 	for _, o := range c.ops {
 		c.mu.Lock()
